@@ -37,14 +37,14 @@ theorem tlvPadding_boundary (done rest : Bytes) (off pad : Nat) (ho : off = done
   · by_cases h1 : pad = 1
     · rw [if_neg h0, if_pos h1, if_neg h0, if_pos h1]
       match rest, hp with
-      | [], hp => simp at hp; omega
+      | [], hp => exact absurd (show pad ≤ 0 from hp) (by omega)
       | a :: r, _ =>
         rw [wr_boundary' done a r 0 off ho]
         exact ⟨r, by simp, by simp [h1]⟩
     · rw [if_neg h0, if_neg h1, if_neg h0, if_neg h1]
       match rest, hp with
-      | [], hp => simp at hp; omega
-      | [a], hp => simp at hp; omega
+      | [], hp => exact absurd (show pad ≤ 0 from hp) (by omega)
+      | [a], hp => exact absurd (show pad ≤ 1 from hp) (by omega)
       | a :: b :: r, hp =>
         dsimp only
         rw [wr_boundary' done a (b :: r) 1 off ho]
@@ -76,23 +76,36 @@ theorem alignPad_pos_cases (fix : Bool) (o : Tlv) (length : Nat) :
           (fun b => .ok (b, length + alignPad fix o length))) := by
   unfold alignStep alignPad
   by_cases hf : fix = true
-  · simp only [hf, if_true]
-    by_cases hx : o.ax ≠ 0
-    · simp only [hx, if_true]
-      dsimp only
-      split
+  · by_cases hx : o.ax ≠ 0
+    · dsimp only
+      rw [if_pos hf, if_pos hx]
+      have hx' : 0 < o.ax := Nat.pos_of_ne_zero hx
+      have h1 : o.ax * (length / o.ax) ≤ length := Nat.mul_div_le length o.ax
+      have h2 : length < o.ax * (length / o.ax) + o.ax := by
+        have := Nat.lt_mul_div_succ length hx'
+        rw [Nat.mul_succ] at this; exact this
+      generalize hoff : (if o.ax * (length / o.ax) + o.ay < length then o.ax * (length / o.ax) + o.ay + o.ax
+          else o.ax * (length / o.ax) + o.ay) = offset
+      have hge : length ≤ offset := by rw [← hoff]; split <;> omega
+      by_cases hne : length ≠ offset
       · right
-        rename_i hne
-        have hx' : 0 < o.ax := Nat.pos_of_ne_zero hx
-        have h1 : o.ax * (length / o.ax) ≤ length := Nat.mul_div_le length o.ax
-        have h2 : length < o.ax * (length / o.ax) + o.ax := by
-          have := Nat.lt_mul_div_succ length hx'
-          rw [Nat.mul_succ] at this; exact this
-        refine ⟨?_, fun buf => rfl⟩
-        split at hne <;> split <;> omega
-      · left; exact ⟨rfl, fun _ => rfl⟩
-    · left; simp only [hx, if_false]; exact ⟨rfl, fun _ => rfl⟩
-  · left; simp only [hf]; exact ⟨rfl, fun _ => rfl⟩
+        rw [if_pos hne]
+        refine ⟨by omega, fun buf => ?_⟩
+        rw [if_pos hf, if_pos hx, if_pos hne]
+        rfl
+      · left
+        rw [if_neg hne]
+        refine ⟨rfl, fun buf => ?_⟩
+        rw [if_pos hf, if_pos hx, if_neg hne]
+    · left
+      dsimp only
+      rw [if_pos hf, if_neg hx]
+      refine ⟨rfl, fun buf => ?_⟩
+      rw [if_pos hf, if_neg hx]
+  · left
+    rw [if_neg hf]
+    refine ⟨rfl, fun buf => ?_⟩
+    rw [if_neg hf]
 
 theorem alignStep_dry (fix : Bool) (o : Tlv) (length : Nat) :
     alignStep none fix o length = .ok (none, length + alignPad fix o length) := by
@@ -116,8 +129,10 @@ theorem tlvSerializeTo_ok (o : Tlv) (bf : Bytes) (off : Nat) (fix : Bool)
   unfold tlvSerializeTo
   by_cases ht : o.typ = 0
   · have : optLen (fixOpt fix o) = 1 := by simp [optLen, fixOpt, ht]
-    rw [if_pos ht, wr_ok _ _ _ (by omega)]
-    exact ⟨_, by simp [fixOpt, optLen, ht], by simp⟩
+    rw [if_pos ht]
+    dsimp only
+    rw [wr_ok _ _ _ (by omega)]
+    exact ⟨bf.set off 0, by simp [fixOpt, optLen, ht], by simp⟩
   · rw [if_neg ht]
     have hl : optLen (fixOpt fix o) = (fixOpt fix o).len + 2 := by
       simp [optLen, fixOpt_typ, ht]
@@ -146,6 +161,7 @@ theorem tlvSerializeTo_boundary (o : Tlv) (done rest : Bytes) (off : Nat) (fix :
     match rest, hroom with
     | [], hroom => simp [h1] at hroom
     | a :: r, _ =>
+      dsimp only
       rw [wr_boundary' done a r 0 off ho]
       refine ⟨r, ?_, by simp [h1]⟩
       simp [fixOpt, optLen, optBytes, ht]
@@ -176,13 +192,11 @@ theorem tlvSerializeTo_boundary (o : Tlv) (done rest : Bytes) (off : Nat) (fix :
       have hnl : (fixOpt fix o).len ≤ n := by rw [← hn]; omega
       refine ⟨(o.bytes.take n).drop (fixOpt fix o).len ++ r.drop n, ?_, ?_⟩
       · simp only [Res.bind_ok, Res.pure_eq_ok, hl, optBytes, fixOpt_typ, ht, if_false, fixOpt_bytes]
-        congr 3
-        have : o.bytes.take n = o.bytes.take (fixOpt fix o).len ++ (o.bytes.take n).drop (fixOpt fix o).len := by
-          conv => lhs; rw [← List.take_append_drop (fixOpt fix o).len (o.bytes.take n)]
+        have this : o.bytes.take (fixOpt fix o).len ++ (o.bytes.take n).drop (fixOpt fix o).len = o.bytes.take n := by
+          conv => rhs; rw [← List.take_append_drop (fixOpt fix o).len (o.bytes.take n)]
           rw [List.take_take, Nat.min_eq_left hnl]
         simp only [List.append_assoc, List.cons_append, List.nil_append]
-        rw [this]
-        simp [List.take_take, Nat.min_eq_left hnl]
+        rw [← List.append_assoc (o.bytes.take (fixOpt fix o).len), this]
       · simp only [List.length_append, List.length_drop, List.length_take, List.length_cons, hl]
         omega
 
